@@ -44,6 +44,9 @@ pub struct Task {
 #[derive(Clone, Debug, PartialEq, Eq, Serialize, Deserialize, Hash)]
 pub enum Stmt {
     Request(Leaf),
+    /// command-API task awaiting a request made through the old capability API (a capability clone
+    /// captured by the task); on hosts without capabilities an ordinary request
+    CapRequest(Leaf),
     Notify(Leaf),
     Emit { tag: u32, cont: Option<Box<Cmd>> },
     StreamLoop { leaf: Leaf, body: Vec<Stmt>, take: Option<u32> },
